@@ -12,7 +12,7 @@ from . import sym, extract
 from .sym import SVal, SInt, SBool, SOpt, SEnum, SSeq, Unsupported, _ie, _be, is_sym, merge
 from .spec import SSet, SpecFn, empty_set
 from .engine import (PyLong, STupleSeq, HRefTable, Engine, ReturnEx, BreakEx, ContinueEx, PathEnd, PyRaise, Opaque, HList, HSetList, HSymList,
-                     HIter, HMap, HFile, SObj, Closure, BoundMethod, Frame, Loop, Contract, call_by_names, conjuncts, MISSING, ConstFn, SUnion, HEnum, MethodOf, SuperProxy, SChars, HSink, AnyExc)
+                     HIter, HMap, HFile, SObj, Closure, BoundMethod, Frame, Loop, Contract, call_by_names, conjuncts, MISSING, ConstFn, SUnion, HEnum, MethodOf, SuperProxy, SChars, HSink, AnyExc, HAcc)
 
 
 def exc_matches(exc_type, handler_type):
@@ -219,6 +219,11 @@ class Interp(Engine):
 
     def st_Assign(self, s, f):
         v = self.eval(s.value, f)
+        accs = getattr(getattr(f, "contract", None), "accumulators", None)
+        if accs and len(s.targets) == 1 and isinstance(s.targets[0], ast.Name) and s.targets[0].id in accs and isinstance(v, (bytes, str, bytearray)) and len(v) == 0:
+            spec = accs[s.targets[0].id]
+            env = self.inv_env(f, {})
+            v = HAcc(s.targets[0].id, call_by_names(spec.first, env), spec.signed(self.entry_cfg) if callable(spec.signed) else spec.signed, spec)
         for t in s.targets:
             self.assign(t, v, f)
 
@@ -232,6 +237,16 @@ class Interp(Engine):
         if isinstance(s.op, ast.Add) and isinstance(cur, (HList, HSymList)):
             # list += iterable mutates in place
             self.list_extend(cur, v, s)
+            return
+        if isinstance(s.op, ast.Add) and isinstance(cur, HAcc):
+            c = SChars.of(v)
+            if c is not None:
+                codes = c.codes
+            elif isinstance(v, SSeq) and isinstance(v.length, int):
+                codes = [self.as_int(v.get(z3.IntVal(i)), s) for i in range(v.length)]
+            else:
+                raise Unsupported("appending %s to a tracked byte string" % type(v).__name__)
+            cur.put(self, codes, lambda: self.inv_env(f, {}), s.lineno)
             return
         self.assign(s.target, self.binop(s.op, cur, v, s), f)
 
@@ -531,7 +546,7 @@ class Interp(Engine):
             return PyLong(self.fresh_int(name))
         if isinstance(cur, STupleSeq) or (isinstance(cur, tuple) and len(cur) == 0 and name in ("ret",)):
             return STupleSeq(sym.ZSeq(z3.Const(self.fresh(name + "!seq"), z3.SeqSort(z3.IntSort()))))
-        if isinstance(cur, (HSetList, HSymList, HIter, HList, HMap, SObj)):
+        if isinstance(cur, (HSetList, HSymList, HIter, HList, HMap, SObj, HAcc)):
             return cur      # heap objects are havocked in place (see havoc_heap)
         raise Unsupported("cannot havoc loop variable %r of kind %s; declare it in the loop contract" % (name, type(cur).__name__))
 
@@ -552,6 +567,16 @@ class Interp(Engine):
             obj._pos = SInt(p)
         elif isinstance(obj, HSink):
             obj.seq = z3.Const(self.fresh(name + "!out"), z3.SeqSort(z3.IntSort()))
+        elif isinstance(obj, HAcc):
+            if obj.half is not None:
+                raise Unsupported("a loop is cut between the two bytes of a pair appended to %s" % obj.name)
+            obj.addr = z3.Int(self.fresh(name + "!addr"))
+            obj.line = z3.Int(self.fresh(name + "!line"))
+            obj.last = z3.Int(self.fresh(name + "!last"))
+            obj.has_last = z3.Bool(self.fresh(name + "!has_last"))
+            obj.nyield = z3.Int(self.fresh(name + "!nyield"))
+            obj.npairs = z3.Int(self.fresh(name + "!npairs"))
+            self.run.pc.append(z3.And(obj.nyield >= 0, obj.npairs >= 0))
         elif isinstance(obj, HRefTable):
             g = z3.Int(self.fresh(name + "!extra"))
             self.run.pc.append(g >= _ie(obj.extra))
@@ -585,7 +610,7 @@ class Interp(Engine):
                 obj = f.lookup(nm)
             except PyRaise:
                 continue
-            if isinstance(obj, (HSetList, HSymList, HIter, HList, HFile, HRefTable, SObj, HSink)) and id(obj) not in seen:
+            if isinstance(obj, (HSetList, HSymList, HIter, HList, HFile, HRefTable, SObj, HSink, HAcc)) and id(obj) not in seen:
                 seen.add(id(obj))
                 if nm in mutated_names:
                     self.havoc_heap(obj, nm, True)
